@@ -74,8 +74,46 @@ def func_bad_h(field, observers):
     return np.zeros((len(observers), 3)) if field == "B" else np.zeros((len(observers), 2))
 
 
-FUNCS = {"badH": func_bad_h, "good": good_func, "good2": good_func2, "badargs": func_bad_args, "badshape": func_bad_shape,
-         "list": func_returns_list, "none": func_returns_none}
+class ProbeError(Exception):
+    """raised by the user's own field function: not the library's business"""
+
+
+FIELD_BEHAVIOURS = ["none", "good", "scalar", "list", "shape3", "shapen2", "raises"]
+
+
+def make_cross_func(bb, bh):
+    """a field function whose behaviour is chosen separately for B and for H"""
+    def one(kind, observers):
+        n = len(observers)
+        if kind == "none":
+            return None
+        if kind == "good":
+            return np.full((n, 3), 0.25)
+        if kind == "scalar":
+            return 1.5
+        if kind == "list":
+            return [[0.0, 0.0, 0.0]] * n
+        if kind == "shape3":
+            return np.zeros(3)
+        if kind == "shapen2":
+            return np.zeros((n, 2))
+        raise ProbeError(kind)
+
+    def cross(field, observers):
+        return one(bb if field == "B" else bh, observers)
+    return cross
+
+
+class _Funcs(dict):
+    def __missing__(self, name):        # "x:<behaviour for B>:<behaviour for H>"
+        _, bb, bh = name.split(":")
+        self[name] = make_cross_func(bb, bh)
+        return self[name]
+
+
+FUNCS = _Funcs()
+FUNCS.update({"badH": func_bad_h, "good": good_func, "good2": good_func2, "badargs": func_bad_args, "badshape": func_bad_shape,
+         "list": func_returns_list, "none": func_returns_none})
 
 
 def magnet_attrs(extra):
@@ -290,6 +328,11 @@ def doc_valid(doc, v):
     if kind == "func":
         if cat == "none":
             return True
+        if cat == "func" and v["name"].startswith("x:"):
+            _, bb, bh = v["name"].split(":")
+            if "raises" in (bb, bh):
+                return None       # the user's function raises during the probe: no demand on accept / reject
+            return bb in ("none", "good") and bh in ("none", "good")
         if cat == "func":
             return v["name"] in ("good", "good2", "none")
         return False
@@ -365,6 +408,9 @@ def vkind(doc, v):
         return v["name"]
     if k == "rot":
         return "empty-Rotation" if v.get("n") == 0 and not v.get("kind") else "Rotation"
+    if k == "func" and v["name"].startswith("x:"):
+        cl = [b if b in ("none", "good", "raises") else "malformed" for b in v["name"].split(":")[1:]]
+        return f"callable-B:{cl[0]}-H:{cl[1]}"
     if k == "func":
         return "callable-" + v["name"]
     if k == "raw":
@@ -462,8 +508,10 @@ def battery_types():
     vs += [{"k": "rot", "n": None}, {"k": "rot", "n": 1}, {"k": "rot", "n": 3}, {"k": "rot", "n": 2}, {"k": "rot", "n": 17},
            {"k": "rot", "n": 0}]
     vs += [{"k": "rot", "n": None, "kind": kd} for kd in ("identity", "q90z", "flip180x", "turns", "mixed")]
-    for n in FUNCS:
-        vs.append({"k": "func", "name": n})
+    for n in list(FUNCS):
+        if not n.startswith("x:"):
+            vs.append({"k": "func", "name": n})
+    vs += [{"k": "func", "name": "x:none:shapen2"}, {"k": "func", "name": "x:good:raises"}]
     # irregular / non-float content
     vs += [
         {"k": "raw", "data": [[1.0, 2.0, 3.0], [1.0, 2.0]], "c": "list", "why": "ragged"},
@@ -621,6 +669,8 @@ def values_for(ctx, cls_name, attr, rng, shared):
         valid = [1e5, 2e5, 5e4]
     if valid is not None:
         vs += mutated_valid(doc, valid, rng, ctx.n(4, 120))
+    if attr == "field_func":             # full cross product of per-field behaviours, B x H
+        vs += [{"k": "func", "name": f"x:{bb}:{bh}"} for bb in FIELD_BEHAVIOURS for bh in FIELD_BEHAVIOURS]
     if attr == "faces":
         vs = [as_indices(v) for v in vs]
     return vs
@@ -822,6 +872,17 @@ def compute_problem(obj):
     """getB after an accepted assignment: library errors (e.g. a parameter still None) are fine, anything else is an
     internal error"""
     global _SRC         # pylint: disable=global-statement
+    if isinstance(obj, magpy.misc.CustomSource):
+        for name in ("getB", "getH"):    # a custom field function serves B and H separately: ask for both, each on
+            try:                         # its own (a library error for one field must not hide the other)
+                out = getattr(obj, name)(OBS)
+                if not isinstance(out, np.ndarray):
+                    return f"{name} returned {type(out).__name__}"
+            except LIB_ERRORS + (ProbeError,):
+                pass
+            except Exception as e:       # pylint: disable=broad-except
+                return f"{name} raised {type(e).__name__}: {str(e)[:120]}"
+        return None
     try:
         if isinstance(obj, magpy.Collection):
             out = magpy.getB(obj, OBS)
@@ -831,14 +892,12 @@ def compute_problem(obj):
             out = _SRC.getB(obj)
         else:
             out = obj.getB(OBS)
-            if isinstance(obj, magpy.misc.CustomSource):
-                obj.getH(OBS)        # a custom field function serves B and H separately
         if not isinstance(out, np.ndarray):
             return f"getB returned {type(out).__name__}"
-    except LIB_ERRORS:
+    except LIB_ERRORS + (ProbeError,):
         return None
     except Exception as e:           # pylint: disable=broad-except
-        return f"getB raised {type(e).__name__}: {str(e)[:120]}"
+        return f"getB / getH raised {type(e).__name__}: {str(e)[:120]}"
     return None
 
 
@@ -913,7 +972,7 @@ def check_case(cls_name, attr, v, vias=("setter", "ctor", "copy", "setter-path")
         else:
             if dv is True:
                 fails.append(("rejects-documented", f"{via}: documented value raised {outcome}: {det['msg']}"))
-            elif outcome != "lib":
+            elif outcome != "lib" and outcome != "foreign:ProbeError":
                 fails.append(("foreign-exception", f"{via}: raised {outcome[8:]} instead of the library's input "
                                                    f"error: {det['msg']}"))
             if via != "ctor" and not det["unchanged"]:
